@@ -324,6 +324,30 @@ def run(ctx):
             ctx.case({"default_fit": nm, "n": n_, "p": p_}, nontrivial=True)
             if not close(got, want):
                 v(f"{nm} fitted on {n_} x {p_} data is {got!r}, the documented default (scale 2.0) gives {want!r}", {"n": n_, "p": p_, "attribute": nm}, {"what": "default-fitted-value", "attr": nm})
+    # ---- at scale and with the DEFAULT bandwidth: the tuned threshold is the (1 - level) quantile of ALL training scores; PELT's count is monotone on long series ----
+    from skchange.change_detectors import MovingWindow as _MWq, SeededBinarySegmentation as _SBSq
+    for n_, p_ in [(400, 1), (1500, 3)]:
+        Xq = pd.DataFrame(np.asarray([[rng.gauss(0, 1) for _ in range(p_)] for _ in range(n_)]))
+        for lvl in (0.01, 0.1):
+            dq = _MWq(threshold_scale=None, level=lvl).fit(Xq)
+            sq = dq.transform_scores(Xq).to_numpy().reshape(-1)
+            want = float(np.quantile(sq, 1 - lvl))
+            ctx.case({"tuned_default_bandwidth": n_, "p": p_, "level": lvl}, nontrivial=True)
+            if not close(dq.threshold_, want):
+                v(f"MovingWindow(threshold_scale=None, level={lvl}) with the default bandwidth on {n_} x {p_} data: threshold_ = {dq.threshold_!r}, the (1 - level) quantile of the "
+                  f"{n_} training scores is {want!r}", {"n": n_, "p": p_, "level": lvl}, {"what": "tuned-threshold-value", "detector": "MovingWindow", "default_bandwidth": True})
+    for rep in range(ctx.n(1, 4)):
+        n_ = rng.choice([1400, 2250])
+        xl = np.asarray([rng.gauss(0, 1) for _ in range(n_)])
+        for c_ in range(450, n_, 450):
+            xl[c_:] += rng.choice([2.5, -3.0])
+        Xl2 = pd.DataFrame(xl)
+        scales_ = [1.0, 2.0, 4.0, 8.0, 20.0, 1e4]
+        counts = [len(PELT(penalty_scale=s_).fit(Xl2).predict(Xl2)) for s_ in scales_]
+        ctx.case({"mono-long": rep, "n": n_}, nontrivial=counts[0] > 0)
+        if any(a_ < b_ for a_, b_ in zip(counts, counts[1:])) or counts[-1] != 0:
+            v(f"PELT() on a series of {n_} rows: changepoint counts {counts} for penalty scales {scales_} are not non-increasing (a penalty above the cost of the whole series must give none)",
+              {"n": n_, "scales": scales_, "counts": counts}, {"what": "pelt-monotone", "real": True, "long": True})
     sys.path.pop(0)
     # ---- p is the NUMBER OF COLUMNS of the training data, whatever their labels: frames whose columns share a label ----
     import pandas as _pd
